@@ -93,7 +93,33 @@ func init() {
 		"runtime.KeepAlive":  func(fr *frame, a []value) value { return nil },
 		"github.com/pingcap/errors.callers": func(fr *frame, a []value) value { return (*value)(nil) },
 		"github.com/pingcap/errors.callersSkip": func(fr *frame, a []value) value { return (*value)(nil) },
+		"go.etcd.io/etcd/clientv3.isOpFuncCalled": func(fr *frame, a []value) value {
+			// the real code identifies the option by reflection on the function name
+			op := str(a[0])
+			for _, o := range a[1].([]value) {
+				if strings.Contains(calleeName(o), op) {
+					return true
+				}
+			}
+			return false
+		},
 		"time.Sleep":         func(fr *frame, a []value) value { return nil },
+		// math/rand: fresh symbolic values within the documented range (DESIGN.md §3.5)
+		"math/rand.Seed":   func(fr *frame, a []value) value { return nil },
+		"math/rand.Intn":   func(fr *frame, a []value) value { return fr.in.randBelow("rand.Intn", a[0], types.Int) },
+		"math/rand.Int63n": func(fr *frame, a []value) value { return fr.in.randBelow("rand.Int63n", a[0], types.Int64) },
+		"math/rand.Int31n": func(fr *frame, a []value) value { return fr.in.randBelow("rand.Int31n", a[0], types.Int32) },
+		"math/rand.Uint32": func(fr *frame, a []value) value { return fr.in.fresh("rand.Uint32", types.Uint32) },
+		"math/rand.Uint64": func(fr *frame, a []value) value { return fr.in.fresh("rand.Uint64", types.Uint64) },
+		"math/rand.Perm": func(fr *frame, a []value) value {
+			n := int(fr.in.concInt(a[0]))
+			out := make([]value, n)
+			for i := range out {
+				out[i] = i
+			}
+			return out // identity permutation (stated: one order only)
+		},
+		"math/rand.Shuffle": func(fr *frame, a []value) value { return nil }, // identity shuffle (stated)
 		// contexts are never cancelled and never time out (DESIGN.md §3.5)
 		"context.WithTimeout":  ctxWithCancel,
 		"context.WithDeadline": ctxWithCancel,
@@ -615,3 +641,10 @@ func sortSort(fr *frame, a []value) value {
 var noopCancel = &hostFunc{name: "context.cancel", f: func(in *interp, args []value) value { return nil }}
 
 func ctxWithCancel(fr *frame, a []value) value { return tuple{a[0], noopCancel} }
+
+func (in *interp) randBelow(name string, n value, k types.BasicKind) value {
+	v := in.fresh(name, k)
+	in.assume(in.binop(token.GEQ, nil, v, fromBits(k, 0)))
+	in.assume(in.binop(token.LSS, nil, v, n))
+	return v
+}
